@@ -39,6 +39,8 @@ type Stats struct {
 	SampleEvents []string
 	WallS        float64
 	FailureExecs int64
+	Pruned       int64 // executions cut short at an already fully explored happens-before state
+	States       int64 // distinct happens-before states at choice points (state cache, final pass)
 }
 
 // Options steer one exploration.
@@ -119,15 +121,30 @@ func explorePass(sc *Scenario, opt Options) (*Stats, []Found) {
 // cost is below b were covered by the previous bound; they are re-run only as interior nodes.
 func exploreBound(sc *Scenario, b int, opt Options, st *Stats, outcomes map[uint64]bool, byKey map[string]*Found, order *[]string, capSeen map[string]bool) bool {
 	var stack []frame
+	var cache map[uint64]int8
+	if !sc.NoCache {
+		cache = map[uint64]int8{}
+	}
+	record := func(f frame) {
+		if cache != nil {
+			if v, ok := cache[f.key]; !ok || int32(v) < f.rem {
+				cache[f.key] = int8(f.rem)
+			}
+		}
+	}
+	defer func() { st.States += int64(len(cache)) }()
 	prefix := []int32{}
 	first := true
 	for {
 		if !opt.Deadline.IsZero() && st.Execs%64 == 0 && time.Now().After(opt.Deadline) {
 			return false
 		}
-		x, res, fails := runOne(sc, prefix, false)
+		x, res, fails := runOne(sc, prefix, false, b, cache)
 		if x.divergence != "" {
 			panic("ENGINE: divergence while replaying a prefix: " + x.divergence)
+		}
+		if x.pruned {
+			st.Pruned++
 		}
 		st.Execs++
 		st.Steps += int64(x.steps)
@@ -148,7 +165,9 @@ func exploreBound(sc *Scenario, b int, opt Options, st *Stats, outcomes map[uint
 		if res.Cap != "" {
 			capSeen[res.Cap] = true
 		}
-		outcomes[outcomeHash(res)] = true
+		if !x.pruned {
+			outcomes[outcomeHash(res)] = true
+		}
 		if len(st.SampleSched) < 3 && len(x.trace) > 0 && (len(prefix) > 0 || len(st.SampleSched) == 0) {
 			st.SampleSched = append(st.SampleSched, chosenOf(x.trace))
 			if len(st.SampleEvents) == 0 {
@@ -171,7 +190,7 @@ func exploreBound(sc *Scenario, b int, opt Options, st *Stats, outcomes map[uint
 		// rebuild the stack for the part beyond the prefix
 		stack = stack[:len(prefix)]
 		for i := len(prefix); i < len(x.trace); i++ {
-			stack = append(stack, frame{costs: x.trace[i].costs, chosen: x.trace[i].chosen})
+			stack = append(stack, frame{costs: x.trace[i].costs, chosen: x.trace[i].chosen, key: x.trace[i].key, rem: x.trace[i].rem})
 		}
 		for i := 0; i < len(prefix) && i < len(x.trace); i++ {
 			stack[i].costs = x.trace[i].costs
@@ -194,6 +213,9 @@ func exploreBound(sc *Scenario, b int, opt Options, st *Stats, outcomes map[uint
 				}
 			}
 		}
+		for i := len(stack) - 1; i > next; i-- {
+			record(stack[i])
+		}
 		if next < 0 {
 			return true
 		}
@@ -209,6 +231,8 @@ func exploreBound(sc *Scenario, b int, opt Options, st *Stats, outcomes map[uint
 type frame struct {
 	costs  []int32
 	chosen int32
+	key    uint64
+	rem    int32
 }
 
 // firstDeviation returns the index of the first non-default choice if the stack is [defaults..., a].
@@ -247,7 +271,7 @@ func outcomeHash(r *Result) uint64 {
 func confirm(sc *Scenario, fd *Found) {
 	var evs [2]string
 	for k := 0; k < 2; k++ {
-		x, res, fails := runOne(sc, fd.Choices, true)
+		x, res, fails := runOne(sc, fd.Choices, true, 1<<20, nil)
 		if x.divergence != "" {
 			panic("ENGINE: failing schedule does not replay: " + x.divergence)
 		}
@@ -288,7 +312,7 @@ func confirm(sc *Scenario, fd *Found) {
 
 // Replay runs one recorded schedule with tracing.
 func Replay(sc *Scenario, choices []int32) (*Result, []Failure, []string) {
-	x, res, fails := runOne(sc, choices, true)
+	x, res, fails := runOne(sc, choices, true, 1<<20, nil)
 	if x.divergence != "" {
 		panic("ENGINE: schedule does not replay: " + x.divergence)
 	}
